@@ -27,3 +27,48 @@ Proof.
   unfold ic in Hal. rewrite no_perm_allowed in Hal. discriminate.
 Qed.
 Print Assumptions C03_unflagged_kernel_ignores_permutation.
+
+(* Numbering-invariance half: FFCx's point permutations (regenerated: gen/PermGen.v) and the
+   stacking order of the permuted tables.  Code c acts on the vertex shape functions of the
+   reference facet by the permutation in the pinned tables; the tables are the whole symmetry
+   group; hence for every relative numbering of a shared facet some code makes the physical
+   points of both sides coincide at every quadrature point. *)
+From Coq Require Import QArith List.
+From FFCX Require Import Perm.
+From FFCXGen Require Import PermGen.
+Import ListNotations.
+
+Theorem C03_triangle_code_acts_as_tabulated :
+  forall c i x y, (c < 6)%nat -> (i < 3)%nat -> (N3 i (apply_triangle c (x, y)) == N3 (sig triangle_table c i) (x, y))%Q.
+Proof. exact triangle_code_table. Qed.
+Print Assumptions C03_triangle_code_acts_as_tabulated.
+
+Theorem C03_quadrilateral_code_acts_as_tabulated :
+  forall c i x y, (c < 8)%nat -> (i < 4)%nat -> (N4 i (apply_quadrilateral c (x, y)) == N4 (sig quadrilateral_table c i) (x, y))%Q.
+Proof. exact quadrilateral_code_table. Qed.
+Print Assumptions C03_quadrilateral_code_acts_as_tabulated.
+
+Theorem C03_interval_code_acts_as_tabulated :
+  forall c i x, (c < 2)%nat -> (i < 2)%nat -> (N2 i (apply_interval c x) == N2 (sig interval_table c i) x)%Q.
+Proof. exact interval_code_table. Qed.
+Print Assumptions C03_interval_code_acts_as_tabulated.
+
+Theorem C03_triangle_facets_some_code_aligns_the_points :
+  forall (X : nat -> Q) a b c, (a < 3)%nat -> (b < 3)%nat -> (c < 3)%nat -> distinct3 a b c = true ->
+  exists code, (code < 6)%nat /\
+    forall x y, (F3 (fun i => X (nth i [a; b; c] 0%nat)) (apply_triangle code (x, y)) == F3 X (x, y))%Q.
+Proof. exact triangle_points_coincide_for_some_code. Qed.
+Print Assumptions C03_triangle_facets_some_code_aligns_the_points.
+
+Theorem C03_quadrilateral_facets_some_code_aligns_the_points :
+  forall (X : nat -> Q) a b c d, (a < 4)%nat -> (b < 4)%nat -> (c < 4)%nat -> (d < 4)%nat -> square_symmetry [a; b; c; d] = true ->
+  exists code, (code < 8)%nat /\
+    forall x y, (F4 (fun i => X (nth i [a; b; c; d] 0%nat)) (apply_quadrilateral code (x, y)) == F4 X (x, y))%Q.
+Proof. exact quadrilateral_points_coincide_for_some_code. Qed.
+Print Assumptions C03_quadrilateral_facets_some_code_aligns_the_points.
+
+Theorem C03_interval_facets_some_code_aligns_the_points :
+  forall (X : nat -> Q) a b, (a < 2)%nat -> (b < 2)%nat -> a <> b ->
+  exists code, (code < 2)%nat /\ forall x, (F2 (fun i => X (nth i [a; b] 0%nat)) (apply_interval code x) == F2 X x)%Q.
+Proof. exact interval_points_coincide_for_some_code. Qed.
+Print Assumptions C03_interval_facets_some_code_aligns_the_points.
